@@ -73,7 +73,7 @@ fn prop_cfg(id: &str, thorough: bool) -> Option<PropCfg> {
         },
         "C04" => PropCfg {
             id: "C04",
-            modes: vec![General, Flipper, ExpiryRace, Faulty],
+            modes: vec![General, Flipper, ExpiryRace, Faulty, RoyaltyStack, RegistryHeavy],
             probe: Some(("nonowner", 1, if t { 6 } else { 20 })),
             faultenum: false,
             attach: false,
